@@ -54,7 +54,10 @@ RULE = ("stream (a), ~20%: random operation sequences on the real MatchList / Pa
 
 
 SYMPTOMS = [(1, "panic-or-bytes"), (2, "unsound"), (4, "order"), (8, "missed"), (16, "over-limit"), (32, "model"),
-            (64, "sub-patterns-differ-from-compile-model"), (128, "atoms_ok-false-on-real-atoms"), (256, "pipeline-or-chain-model-differs")]
+            (64, "sub-patterns-differ-from-compile-model"), (128, "atoms_ok-false-on-real-atoms"), (256, "pipeline-or-chain-model-differs"),
+            (512, "hits-not-the-atom-occurrences-in-kernel-order"),
+            (1024, "chain:pieces-differ-from-split-model"), (2048, "chain:atoms_ok-false-on-real-atoms"), (4096, "chain:hits-not-the-atom-occurrences-in-kernel-order"),
+            (8192, "chain:literal-piece-matches-differ-from-model"), (16384, "chain:regexp-piece-matches-not-the-reference's"), (32768, "chain:bookkeeping-model-differs")]
 
 # root-cause hints computed by the harness from the pattern's AST, most specific first (the defects behind
 # them are repaired: a case classified by one of them is a regression and is reported as a VIOLATION)
